@@ -40,6 +40,19 @@ CLAIMED = {
                             "covered (the property does not ask for them)."),
         technique="Lean 4 kernel-decided table certificates (decide +kernel) + proofs over traced geometry + numeric oracle",
         design="5/C08"),
+    "C10": dict(
+        text=("Lean theorems, over any ordered field and for all monotone boundary lists of any length, about the model "
+              "of the overlap map: every weight is non-negative; for each region cell the row-normalised weights over "
+              "the gap cells sum to one (uniform fields are reproduced) and symmetrically for the other direction; every "
+              "gap cell is covered exactly once by the region cells; the perimeter-weighted integral is preserved "
+              "(conservation) for arbitrary fields; coinciding cells give the diagonal.  The executable model (including "
+              "the fold of the split top corner and zero padding) agrees with the real _map_asm2gap to 1e-11 on generated "
+              "mesh pairs every run, and the property's clauses are evaluated on the real matrices."),
+        note=COMMON_NOTE + ("T3 hand model + differential correspondence (doubles exchanged as bit patterns).  Partial: "
+                            "the algebra of the corner fold (merging the first and last half cell) is validated by the "
+                            "oracle on the real matrices, not yet by a theorem."),
+        technique="Lean 4 proof (interval-overlap telescoping, double-sum swap) over hand model + differential correspondence",
+        design="5/C10"),
     "C11": dict(
         text=("Lean theorems (any ordered field, all positive film coefficients / conductivity / thickness, any "
               "temperatures and heating) that the duct-wall closed forms satisfy Fourier's law at both faces, the "
